@@ -1,9 +1,131 @@
-"""Generators driven by the implementation-shaped directory model (CfbDir)."""
+"""Generators driven by the implementation-shaped directory model (CfbDir /
+MC_Dir): transition coverage of the sibling-tree state graph - every
+reachable tree shape x every insertion / removal (optionally with an open
+handle) - turned into scripts for the real library."""
+import os
+
+from . import core, gens
+
+
+def mc_dir_cfg(nkeys, emit, with_handle, view_shape, copy=False, maxops=99):
+    ks = ", ".join(str(i) for i in range(1, nkeys + 1))
+    b = lambda x: "TRUE" if x else "FALSE"
+    return f"""SPECIFICATION Spec
+CONSTANTS Keys = {{{ks}}} CopyOnRemove = {b(copy)} Emit = {b(emit)} WithHandle = {b(with_handle)} ViewShape = {b(view_shape)} MaxOps = {maxops}
+VIEW View_
+CONSTRAINT Bound
+ACTION_CONSTRAINT EmitEdge
+INVARIANT TreeOK HandleBound
+CHECK_DEADLOCK FALSE
+"""
+
+
+def dir_edges(out, nkeys, with_handle, view_shape, tag, maxops=99):
+    edges, gen, distinct = gens.tlc_edges("MC_Dir", mc_dir_cfg(nkeys, True, with_handle, view_shape, maxops=maxops), {},
+                                          f"mcd_{out.prop}_{tag}", workers=4)
+    out.add_design(gen, distinct)
+    out.parts.append({"design": f"MC_Dir keys={nkeys} handle={with_handle} view={'shape' if view_shape else 'slots'}",
+                      "states": distinct, "transitions": gen})
+    return edges
+
+
+def sorted_names(d, pool):
+    """names of `pool` (valid, distinct fold classes) in CFB order"""
+    seen, names = set(), []
+    for n in pool:
+        if n in d.tlc and d.tlc[n]["v"] and d.key(n) not in seen:
+            seen.add(d.key(n))
+            names.append(n)
+    return sorted(names, key=lambda n: (len(d.key(n)), d.key(n)))
+
+
+POOLS = {
+    "A": ["a", "B", "c", "Z", "aa", "AB", "zz", "foo", "bar", "baz", "k1", "k2"],
+}
+
+
+def names_for(dictname, nkeys):
+    d = gens.Dict(dictname)
+    pool = POOLS.get(dictname) or d.valid
+    names = sorted_names(d, pool)
+    if len(names) < nkeys:
+        names = sorted_names(d, d.valid)
+    # spread over the order (mix of lengths)
+    step = max(1, len(names) // nkeys)
+    pick = names[::step][:nkeys]
+    if len(pick) < nkeys:
+        pick = names[:nkeys]
+    return d, pick
+
+
+def edge_history(e, names, ver, hid, d, kinds="mixed", use_handle=False, battery=True):
+    """ins -> create (stream with a little data, or storage), rem -> matching remove, open -> open_stream."""
+    f = gens.Fill()
+    ops = []
+    kind_of = {}
+    for o in e:
+        n = names[o["k"] - 1]
+        if o["op"] == "ins":
+            as_stream = kinds == "stream" or (kinds == "mixed" and o["k"] % 3 != 0)
+            if as_stream:
+                ops.append({"op": "create_stream", "p": gens.sp([n]), "heavy": False})
+                ops.append({"op": "write", "p": gens.sp([n]), "off": 0, "runs": [[f.next(), 10 + o["k"]]], "heavy": False})
+                kind_of[n] = "stream"
+            else:
+                ops.append({"op": "create_storage", "p": gens.sp([n]), "heavy": False})
+                kind_of[n] = "storage"
+        elif o["op"] == "rem":
+            ops.append({"op": "remove_stream" if kind_of.get(n) == "stream" else "remove_storage", "p": gens.sp([n]), "heavy": False})
+            kind_of.pop(n, None)
+        elif o["op"] == "open":
+            ops.append({"op": "open_stream", "p": gens.sp([n]), "h": "h0", "heavy": False})
+    ops[-1]["heavy"] = True
+    if use_handle and any(o["op"] == "open" for o in e):
+        ops.append({"op": "h_read", "h": "h0", "heavy": False})
+        ops.append({"op": "h_write", "h": "h0", "off": 3, "runs": [[f.next(), 70]], "heavy": True})
+        ops.append({"op": "h_len", "h": "h0", "heavy": False})
+        ops.append({"op": "h_set_len", "h": "h0", "n": 5, "heavy": True})
+    if battery:
+        ops += gens.query_battery(d, names, parents=((),))
+        ops.append({"op": "read_storage", "p": gens.sp([]), "heavy": False})
+    return {"id": hid, "ver": ver, "heavy": "marked", "ops": ops}
+
+
+def shape_histories(out, tier, dictname="A", quick_keys=5, thorough_keys=6, kinds="mixed", tag="shape"):
+    """Every reachable sibling-tree shape x every insertion / removal."""
+    nkeys = quick_keys if tier == "quick" else thorough_keys
+    edges = dir_edges(out, nkeys, False, True, f"{tag}{nkeys}")
+    d, names = names_for(dictname, nkeys)
+    hs = []
+    for i, e in enumerate(edges):
+        hs.append(edge_history(e, names, 3 if i % 2 == 0 else 4, f"{tag}{i}", d, kinds=kinds))
+    return hs
 
 
 def c07_edges(out, tier):
-    pass
+    """Sibling-tree transitions with one open handle (slot-level view: which slot the handle sits in matters)."""
+    from .checks import run_batch
+    nkeys = 4 if tier == "quick" else 5
+    edges = dir_edges(out, nkeys, True, tier != "quick", f"h{nkeys}") if tier != "quick" else dir_edges(out, 5, True, True, "h5s")
+    d, names = names_for("A", 5 if tier == "quick" else nkeys)
+    hs = []
+    for i, e in enumerate(edges):
+        if not any(o["op"] == "open" for o in e):
+            continue
+        hs.append(edge_history(e, names, 3 if i % 2 == 0 else 4, f"hedge{i}", d, kinds="stream", use_handle=True, battery=False))
+    run_batch(out, "handle-edges", "A", hs)
 
 
 def c09_edges(out, tier):
-    pass
+    from .checks import run_batch
+    for dn in ("B", "C", "D", "E"):
+        d = gens.Dict(dn)
+        if len(sorted_names(d, d.valid)) < 4:
+            continue
+        nk = min(5 if tier == "quick" else 6, len(sorted_names(d, d.valid)))
+        edges = dir_edges(out, nk, False, True, f"c09{dn}{nk}")
+        dd, names = names_for(dn, nk)
+        hs = [edge_history(e, names, 3 if i % 2 == 0 else 4, f"ord{dn}{i}", dd, kinds="mixed") for i, e in enumerate(edges)]
+        if tier == "quick":
+            hs = hs[::2]
+        run_batch(out, f"order{dn}", dn, hs)
